@@ -14,7 +14,7 @@ from pv.mon import contracts
 ID = 'C03'
 LEVEL = 'exploration'
 TECHNIQUE = 'exhaustive decision-table monitor: real Enforcer.enforce vs reference function of the statement, every row'
-RULE = ('rows = (rule set over names {a,b,default} each absent/@/!/role:x/role:y: 125 sets incl. the empty one) x '
+RULE = ('rows = (rule set over names {a,b,default} each absent/@/!/role:x/role:y: 216 sets incl. the empty one and null-valued entries, which are defined and deny) x '
         '(default-rule configuration: unset, constructor name default/b/ghost, constructor check object True/False/Role, '
         'option policy_default_rule = b / empty) x (rules installed by set_rules / constructor / policy file, as a plain mapping or as a Rules object carrying a default of its own) x '
         '(queried name a,b,default,ghost,zzz) x (4 role sets) x do_raise off/on. Non-trivial = the queried name is '
@@ -33,7 +33,7 @@ ANCHORS = ['oslo_policy.policy:Rules.__missing__', 'oslo_policy.policy:Enforcer.
            'oslo_policy.policy:Enforcer.set_rules', 'oslo_policy.policy:Rules.__init__']
 REQUIRED_ANCHORS = ['oslo_policy.policy:Enforcer.enforce']
 
-BODIES = [None, '@', '!', 'role:x', 'role:y']
+BODIES = [None, '@', '!', 'role:x', 'role:y', 'NULL']      # None = name absent; 'NULL' = defined with a null value (denies)
 CREDS = [[], ['x'], ['y'], ['x', 'y']]
 DCFGS = ['unset', 'ctor_default', 'ctor_other', 'ctor_ghost', 'obj_true', 'obj_false', 'obj_role', 'opt_b', 'opt_empty']
 VIAS = ['set_rules', 'ctor', 'file', 'set_rules+own-default', 'ctor+own-default', 'set_rules+own-ghost']
@@ -41,7 +41,12 @@ QUERIES = ['a', 'b', 'default', 'ghost', 'zzz']
 
 
 def body_value(b, roles):
-    return {'@': True, '!': False, 'role:x': 'x' in roles, 'role:y': 'y' in roles}[b]
+    return {'@': True, '!': False, 'role:x': 'x' in roles, 'role:y': 'y' in roles, 'NULL': False, None: False}[b]
+
+
+def materialise(rules):
+    """'NULL' stands for a null rule value: the name is DEFINED (and denies); it is not an unknown name."""
+    return {k: (None if v == 'NULL' else v) for k, v in rules.items()}
 
 
 def reference(rules, dcfg, q, roles):
@@ -86,7 +91,7 @@ def build(rules, dcfg, via):
     tree = None
     if via == 'file':
         tree = files.Tree(dirs=())
-        tree.write(os.path.basename(tree.main), rules, 'json')
+        tree.write(os.path.basename(tree.main), materialise(rules), 'json')
         enf = policy.Enforcer(tree.conf(policy_dirs=[], **overrides), **kw)
     else:
         conf = env.fresh_conf(policy_dirs=[], **overrides)
@@ -94,7 +99,7 @@ def build(rules, dcfg, via):
         # enforcer): the default that counts is the one configured on THIS enforcer
         own = {'set_rules': None, 'ctor': None, 'set_rules+own-default': 'b', 'ctor+own-default': 'default',
                'set_rules+own-ghost': 'ghost'}[via]
-        store = policy.Rules.from_dict(rules, own) if own else policy.Rules.from_dict(rules)
+        store = policy.Rules.from_dict(materialise(rules), own) if own else policy.Rules.from_dict(materialise(rules))
         if via.startswith('set_rules'):
             enf = policy.Enforcer(conf, use_conf=False, **kw)
             enf.set_rules(store)
@@ -162,7 +167,8 @@ def table_ok(ctx, enf, rules, dcfg, case, label):
     return True
 
 
-MUTATIONS = ['merge-set_rules', 'update-store', 'setitem', 'delitem', 'overwrite-set_rules', 'file-merge']
+MUTATIONS = ['merge-set_rules', 'update-store', 'setitem', 'delitem', 'overwrite-set_rules', 'file-merge', 'clear-then-set_rules',
+             'drop-default-then-set_rules']
 
 
 def check_mutation(ctx, case):
@@ -206,6 +212,16 @@ def check_mutation(ctx, case):
         elif mut == 'file-merge':
             cur.update(change)
             tree.write(os.path.basename(tree.main), change, 'json')
+        elif mut in ('clear-then-set_rules', 'drop-default-then-set_rules'):
+            # the service drops the default rule of a living enforcer (clear() forgets everything including the
+            # default rule; or it sets default_rule to None) and installs rules again: from then on there is NO default
+            if mut == 'clear-then-set_rules':
+                enf.clear()
+            else:
+                enf.default_rule = None
+            cur = dict(change)
+            enf.set_rules(policy.Rules.from_dict(change), overwrite=True)
+            dcfg = 'opt_empty'               # reference: no default rule configured at all
         table_ok(ctx, enf, cur, dcfg, case, mut)
     finally:
         if tree:
@@ -308,7 +324,7 @@ def run(ctx):
     mdone = True
     for ba, bb, bd in itertools.product(BODIES, repeat=3):
         rules = {k: v for k, v in (('a', ba), ('b', bb), ('default', bd)) if v is not None}
-        if not rules:
+        if not rules or 'NULL' in rules.values():
             continue
         for dcfg in DCFGS:
             for mut in MUTATIONS:
